@@ -212,6 +212,24 @@ Theorem glb_declared_is_actual : forall json bin,
 Proof. exact glb_parse_frame. Qed.
 Print Assumptions glb_declared_is_actual.
 
+(* ---- the property sentence, packaged.
+   FULL STATEMENT (what [prop_ok] evaluates on the implementation's documents):
+     forall sc, scene_ok sc -> scene_ptr_ok sc -> scene_rejected sc = false ->
+       gltf_validb sc {| o_sum := to_summary (run sc); o_payload := Some (buf (run sc));
+                         o_bin_len := b_written (st_b (run sc)); o_glb := None |} = true
+   (alignment excepted: see alignment_refuted).  PROVED: the record [doc_valid sc] below — one field per
+   group of checker clauses (keys in the comments of Formats/GltfNodeProofs.v): buffers / views /
+   accessors, payload image and declared bounds of every accessor, primitives (counts, index width and
+   range, attribute and index image), extension inclusions, nodes (count, name, TRS, kind, mode, lights,
+   scene roots), instances, de-duplication of meshes and materials, material entries, GLB framing.
+   NOT in the record (evaluated by the checker only): content of the texture slots of a material and
+   de-duplication of textures / images / samplers ([tex_matches], "duplicate-entry",
+   "texture-pointer-stored-twice"), "unreferenced-entry", absence of duplicates in extensionsUsed /
+   extensionsRequired, and the boolean packaging itself. *)
+Theorem gltf_valid_model_partial : forall sc, scene_ok sc -> scene_ptr_ok sc -> doc_valid sc.
+Proof. exact model_doc_valid. Qed.
+Print Assumptions gltf_valid_model_partial.
+
 (* component alignment is FALSE of the faithful model (and of the code: known finding
    gltf:unaligned-view): a well-formed scene whose document has a FLOAT accessor at byte offset 42 *)
 Theorem alignment_refuted :
@@ -223,6 +241,11 @@ Print Assumptions alignment_refuted.
 
 (* non-vacuity: the two-triangle scene is well-formed, is not refused, and its document passes the whole
    checker (everything except alignment) against the scene *)
+Example c06_example_ptr : scene_ptr_ok two_triangles.
+Proof.
+  intros m1 m2 (mo1 & H1 & ->) (mo2 & H2 & ->) E. cbn [sc_models two_triangles In] in H1, H2.
+  destruct H1 as [<-|[<-|[]]], H2 as [<-|[<-|[]]]; try reflexivity; cbn in E; discriminate.
+Qed.
 Example c06_example :
   scene_ok two_triangles /\ scene_rejected two_triangles = false /\
   gltf_validb two_triangles {| o_sum := to_summary (run two_triangles); o_payload := Some (buf (run two_triangles));
